@@ -11,6 +11,7 @@ import (
 	"strconv"
 	"strings"
 	"sync"
+	"sync/atomic"
 	"time"
 
 	"verif/checks"
@@ -78,6 +79,7 @@ type childRun struct {
 	races    int
 	raceText string
 	wall     float64
+	skipped  bool
 }
 
 type cpuAlloc struct {
@@ -155,7 +157,15 @@ func childParams(spec checks.Child, cpus int) map[string]string {
 	return p
 }
 
+// abortAll is set once a child has hung inside a monitored call: the verdict is already "violated", so the
+// remaining children (which would each run into the same watchdog) are skipped or killed.
+var abortAll int32
+
 func runChild(r *childRun, bin, id, tier string, seed int64, only string, inherit bool) {
+	if atomic.LoadInt32(&abortAll) != 0 {
+		r.skipped = true
+		return
+	}
 	os.MkdirAll(r.dir, 0o755)
 	ncpu := len(r.cpus)
 	var cl []string
@@ -193,7 +203,26 @@ func runChild(r *childRun, bin, id, tier string, seed int64, only string, inheri
 		cmd.Stdout, cmd.Stderr = f, f
 	}
 	t0 := time.Now()
-	err := cmd.Run()
+	err := cmd.Start()
+	if err == nil {
+		done := make(chan struct{})
+		go func() {
+			for {
+				select {
+				case <-done:
+					return
+				case <-time.After(time.Second):
+					if atomic.LoadInt32(&abortAll) != 0 && cmd.Process != nil {
+						r.skipped = true
+						cmd.Process.Kill()
+						return
+					}
+				}
+			}
+		}()
+		err = cmd.Wait()
+		close(done)
+	}
 	r.wall = time.Since(t0).Seconds()
 	if err != nil {
 		if ee, ok := err.(*exec.ExitError); ok {
@@ -202,7 +231,7 @@ func runChild(r *childRun, bin, id, tier string, seed int64, only string, inheri
 			r.exit = -1
 		}
 	}
-	r.timedOut = r.exit == 124 || r.exit == 137
+	r.timedOut = r.exit == 124 || r.exit == 137 || r.exit == 3
 	if b, err := os.ReadFile(filepath.Join(r.dir, fmt.Sprintf("result-%d.json", r.spec.Shard))); err == nil {
 		var res mon.Result
 		if json.Unmarshal(b, &res) == nil && res.Done {
@@ -224,6 +253,9 @@ func runChild(r *childRun, bin, id, tier string, seed int64, only string, inheri
 		}
 		f.Close()
 		r.inflight = cur
+	}
+	if r.timedOut && r.inflight != "" && r.res == nil && !r.skipped {
+		atomic.StoreInt32(&abortAll, 1)
 	}
 	if b, err := os.ReadFile(logPath); err == nil {
 		s := string(b)
@@ -421,6 +453,8 @@ func drive(id, tier string) int {
 				digests[k][d] = append(digests[k][d], cfgs)
 			}
 			configs = append(configs, fmt.Sprintf("%s numcpu=%d gomaxprocs=%d evals=%d wall=%.1fs", cfgs, r.res.Counters["numcpu"], r.res.Counters["gomaxprocs"], r.res.Evals, r.wall))
+		} else if r.skipped {
+			configs = append(configs, cfgs+" skipped: another child had already hung inside a monitored call")
 		} else {
 			// the child died or was killed
 			deadlock := strings.Contains(r.stdio, "all goroutines are asleep - deadlock")
